@@ -68,21 +68,27 @@ func VerifC20Packet(n, k1, k2 int) {
 		// opposite order: each result must equal the first one whatever was called in between
 		np, no := len(verifPacketReaderNames), len(verifOptionsReaderNames)
 		dp, do := make([][]byte, np), make([][]byte, no)
+		var keep verifKeep
 		for k := 0; k < np; k++ {
-			dp[k] = verifPacketReader(p, k)
+			dp[k] = verifPacketReaderK(p, k, &keep.refs)
+			keep.snapshot()
 			verifAssert(verifSame(p.ToBytes(), e0), "reader-leaves-encoding-unchanged")
 		}
 		for k := 0; k < no; k++ {
-			do[k] = verifOptionsReader(p.Options, k)
+			do[k] = verifOptionsReaderK(p.Options, k, &keep.refs)
+			keep.snapshot()
 			verifAssert(verifSame(p.ToBytes(), e0), "options-reader-leaves-encoding-unchanged")
 		}
 		for k := no - 1; k >= 0; k-- {
 			verifAssert(verifSame(verifOptionsReader(p.Options, k), do[k]), "repeated-calls-return-equal-results")
+			keep.check()
 		}
 		for k := np - 1; k >= 0; k-- {
 			verifAssert(verifSame(verifPacketReader(p, k), dp[k]), "repeated-calls-return-equal-results")
+			keep.check()
 		}
 		verifAssert(verifSame(p.ToBytes(), e0), "reader-leaves-encoding-unchanged")
+		keep.check()
 	}
 	verifReach("end")
 }
@@ -108,4 +114,23 @@ func VerifC20Order(n int) {
 	verifAssert(verifSame(b1, b2), "repeated-calls-return-equal-results")
 	verifAssert(verifSame(b1, b3), "reader-leaves-encoding-unchanged")
 	verifReach("end")
+}
+
+// verifKeep holds the byte slices readers handed out (the slices themselves) beside copies taken
+// at that moment: a later read-only call must not rewrite what an earlier one returned.
+type verifKeep struct {
+	refs, copies [][]byte
+}
+
+func (k *verifKeep) snapshot() {
+	k.check() // after every call: a buffer that is rewritten and later restored must not go unseen
+	for i := len(k.copies); i < len(k.refs); i++ {
+		k.copies = append(k.copies, append([]byte(nil), k.refs[i]...))
+	}
+}
+
+func (k *verifKeep) check() {
+	for i := range k.copies {
+		verifAssert(verifSame(k.refs[i], k.copies[i]), "results-handed-out-earlier-are-not-rewritten-by-later-calls")
+	}
 }
